@@ -68,6 +68,11 @@ def build_harness(name, race=False, tags='verif'):
         if os.path.exists(out):
             os.remove(out)
         cmd = ['go', 'build', '-tags', tags, '-overlay', ov, '-o', out]
+        if REPO != '/repo':   # scratch worktree of /repo (VERIF_REPO): same go.mod with the replace redirected
+            mf = os.path.join(WORK, 'go.scratch.mod')
+            open(mf, 'w').write(open(os.path.join(GO, 'go.mod')).read().replace('=> /repo', '=> ' + REPO))
+            open(os.path.join(WORK, 'go.scratch.sum'), 'w').write(open(os.path.join(GO, 'go.sum')).read())
+            cmd += ['-modfile', mf]
         if race:
             cmd.append('-race')
             e = go_env(); e['CGO_ENABLED'] = '1'
